@@ -20,6 +20,7 @@ CONSTANTS
 INVARIANT PartIsDef
 INVARIANT LabelsExact
 INVARIANT AllLabelsWhenUnobserved
+INVARIANT BlowUp2
 INVARIANT DictDistinct
 INVARIANT NoNullLabel
 PROPERTY NullKeyStuttersC
